@@ -756,7 +756,7 @@ def balanced_ranges(lines):
     return res
 
 
-def cut_includes(rng, text, main_url, ncuts=None, places=("", "sub/", "../")):
+def cut_includes(rng, text, main_url, ncuts=None, places=("", "sub/", "../"), absolute_refs=False):
     """Move 1..3 balanced line ranges (nested cuts allowed) into separate resources.
 
     -> (resources dict url->text, list of (url, included_url)).  Relative names are resolved
@@ -810,7 +810,12 @@ def cut_includes(rng, text, main_url, ncuts=None, places=("", "sub/", "../")):
             written = rng.choice(["$(ZCV_EMPTY)%s", "%s$(ZCV_EMPTY)", "$(Zcv_Mixed)/../%s"]) % name
             if written.startswith("$(Zcv_Mixed)") and (place or " " in name):
                 written = "$(ZCV_EMPTY)" + name
-        newlines = lines[:i] + ["%s%%include %s" % (indent, written)] + lines[j:]
+        if absolute_refs and rng.random() < 0.12:
+            # the argument is a name whose definition is the ABSOLUTE URL of the fragment
+            nm = "zcvinc%d" % len(resources)
+            newlines = lines[:i] + ["%%define %s %s" % (nm, target), "%s%%include $%s" % (indent, nm)] + lines[j:]
+        else:
+            newlines = lines[:i] + ["%s%%include %s" % (indent, written)] + lines[j:]
         resources[url] = "".join(l + "\n" for l in newlines)
         resources[target] = "".join(l + "\n" for l in frag)
         made.append((url, target, i, j))
